@@ -227,7 +227,14 @@ func (c *Checker) batch(obs []Oblig) {
 	if len(live) == 0 {
 		return
 	}
-	if len(live) > 1 {
+	quant := false
+	for _, o := range live {
+		if hasQuant(o.PC, o.Cond) {
+			quant = true // a batch of quantified goals is rarely decided whole: go straight to the single goals
+			break
+		}
+	}
+	if len(live) > 1 && !quant {
 		var ds []*Term
 		for _, o := range live {
 			ds = append(ds, And(o.PC, Not(o.Cond)))
@@ -260,26 +267,19 @@ func (c *Checker) single(o Oblig) {
 			fmt.Fprintf(os.Stderr, "DBG %s var %s op=%s\n", o.Name, termLabel(v), v.Op)
 		}
 	}
-	if !c.allBackends {
-		// cheap first attempt on one back end without model extraction; the race is for the hard ones
-		q0 := SMTQuery([]*Term{o.PC, Not(o.Cond)}, nil)
-		if r0 := runSolver("z3-new", q0, 3*time.Second); r0.Result == "unsat" {
-			oo := o
-			c.add(ObResult{Name: o.Name, Kind: o.Kind, Result: "discharged", Backend: "z3-new", Seconds: r0.Seconds, Size: len(q0.Text), ob: &oo})
-			return
-		}
-	}
 	// quantified hypotheses are also given instantiated at the goal's skolem constants (sound: and(H) = and(H, H[sk]));
 	// first with the quantified originals left out (weaker hypotheses: only unsat is conclusive)
 	full := And(o.PC, Not(o.Cond))
-	if g := withInstHints(full, true); g != full {
-		qg := SMTQuery([]*Term{g}, nil)
+	ground := withInstHints(full, true)
+	var qg *Query
+	if ground != full {
+		qg = SMTQuery([]*Term{ground}, nil)
 		if d := os.Getenv("SNESVC_DUMP"); d != "" && strings.Contains(o.Name, d) {
 			os.WriteFile("/tmp/dumpg_"+sanitizeFile(o.Name)+".smt2", []byte(qg.Text), 0o644)
 		}
-		if rg := Solve(qg, false); rg.Result == "unsat" {
+		if rg := solve2(qg, 3*time.Second); rg.Result == "unsat" {
 			oo := o
-			c.add(ObResult{Name: o.Name, Kind: o.Kind, Result: "discharged", Backend: rg.Backend + " (hypotheses instantiated at the goal's skolem constants)", Seconds: rg.Seconds, Size: len(qg.Text), ob: &oo})
+			c.add(ObResult{Name: o.Name, Kind: o.Kind, Result: "discharged", Backend: rg.Backend + " (quantified hypotheses only as instances at the goal's skolem constants)", Seconds: rg.Seconds, Size: len(qg.Text), ob: &oo})
 			return
 		}
 	}
@@ -311,6 +311,25 @@ func (c *Checker) single(o Oblig) {
 		if okAll {
 			oo := o
 			c.add(ObResult{Name: o.Name, Kind: o.Kind, Result: "discharged", Backend: fmt.Sprintf("portfolio (decided per path, %d paths)", len(o.Cond.Args)), Seconds: secs, ob: &oo})
+			return
+		}
+	}
+	if !c.allBackends {
+		// cheap first attempt on one back end without model extraction; the race is for the hard ones
+		q0 := SMTQuery([]*Term{o.PC, Not(o.Cond)}, nil)
+		if d := os.Getenv("SNESVC_DUMP"); d != "" && strings.Contains(o.Name, d) {
+			os.WriteFile("/tmp/dump0_"+sanitizeFile(o.Name)+".smt2", []byte(q0.Text), 0o644)
+		}
+		if r0 := runSolver("z3-new", q0, 3*time.Second); r0.Result == "unsat" {
+			oo := o
+			c.add(ObResult{Name: o.Name, Kind: o.Kind, Result: "discharged", Backend: "z3-new", Seconds: r0.Seconds, Size: len(q0.Text), ob: &oo})
+			return
+		}
+	}
+	if qg != nil {
+		if rg := Solve(qg, false); rg.Result == "unsat" {
+			oo := o
+			c.add(ObResult{Name: o.Name, Kind: o.Kind, Result: "discharged", Backend: rg.Backend + " (quantified hypotheses only as instances at the goal's skolem constants)", Seconds: rg.Seconds, Size: len(qg.Text), ob: &oo})
 			return
 		}
 	}
